@@ -60,7 +60,11 @@ EXPLANATION = (
     'has a double operand (C usual arithmetic conversions: a difference or '
     'square of two cells of the element type is computed in that type - int32/'
     'int64 wrap, float32 rounds/overflows - and only the result is widened; '
-    'C13.D5.formula.widen); (D6) metric names map to the right kernels (decision list of '
+    'C13.D5.formula.widen), and the hamming comparison is carried out in a C type that '
+    'represents every value of every specialisation of the fused element type (casts, '
+    'C-typed temporaries and the usual arithmetic conversions followed per specialisation: '
+    'int64/uint64 through double or any narrower type makes different elements compare '
+    'equal; C13.D5.formula.exact-compare); (D6) metric names map to the right kernels (decision list of '
     '_get_distance_method evaluated per name). Floating-point exactness and '
     'memory layouts are delegated to Cython typed-buffer indexing (no raw '
     'pointers: checked).')
@@ -943,8 +947,14 @@ def _elem_pair(a, b, X, y):
 def _term_verdict(metric, term, conds, conds_ok, X, y, iv, jv, scope):
     diff = ['%s[_I, _J] - %s[_J]' % (X, y), '%s[_J] - %s[_I, _J]' % (y, X)]
     if metric == 'hamming':
+        def plain(e):
+            # an element / scalar / constant: a condition that does arithmetic on the elements first
+            # (`X[i, j] - y[j] != 0`, `X[i, j] ^ y[j] != 0`) may well be the same predicate -> not decided here
+            return not any(isinstance(x, (ast.BinOp, ast.Call, ast.IfExp, ast.BoolOp)) for x in ast.walk(e))
+
         def closed_conds():
-            return conds_ok and all(isinstance(c, Cmp) and _closed(c.lhs, scope) and _closed(c.rhs, scope) for c in conds)
+            return conds_ok and all(isinstance(c, Cmp) and _closed(c.lhs, scope) and _closed(c.rhs, scope)
+                                    and plain(c.lhs) and plain(c.rhs) for c in conds)
         if const_value(term) in (1, 1.0) and not isinstance(const_value(term), bool):
             if conds_ok and len(conds) == 1 and isinstance(conds[0], Cmp):
                 c = conds[0]
@@ -1115,6 +1125,287 @@ class _CTypes:
                     self.type_of(x)
             return 'int'
         return None
+
+
+# ---------------------------------------------------------------------------
+# D5 (hamming): the comparison that decides "the coordinates differ" is exact
+#
+# "x and y differ" is a statement about the ELEMENTS.  The C comparison sees the
+# elements only after the conversions written in the source (typecasts, C-typed
+# temporaries) and after C's usual arithmetic conversions to the common type of
+# the two operands.  The comparison equals the comparison of the elements iff
+# that chain of conversions maps distinct element values to distinct values,
+# the same way on both sides, for EVERY specialisation of the fused element
+# type.  Decided on a finite abstract domain: capacity of a C type (integer
+# width and signedness / mantissa bits), per specialisation.
+
+_NP_INT = {p % (s, w): (w, s == '') for p in ('np.%sint%d_t', 'np.npy_%sint%d', 'numpy.%sint%d_t', '%sint%d_t')
+           for s in ('', 'u') for w in (8, 16, 32, 64)}
+_C_INT_WIDTH = {
+    'signed char': (8, 8, True), 'unsigned char': (8, 8, False), 'short': (16, 16, True), 'unsigned short': (16, 16, False),
+    'int': (32, 32, True), 'unsigned int': (32, 32, False), 'long long': (64, 64, True), 'unsigned long long': (64, 64, False),
+    # width depends on the platform's data model (LP64 / LLP64 / ILP32)
+    'long': (32, 64, True), 'unsigned long': (32, 64, False), 'Py_ssize_t': (32, 64, True), 'ssize_t': (32, 64, True),
+    'size_t': (32, 64, False), 'np.intp_t': (32, 64, True), 'np.npy_intp': (32, 64, True), 'np.uintp_t': (32, 64, False),
+    'np.long_t': (32, 64, True), 'np.ulong_t': (32, 64, False), 'np.longlong_t': (64, 64, True), 'np.ulonglong_t': (64, 64, False),
+    'np.int_t': (32, 64, True), 'np.uint_t': (32, 64, False),
+    # `<bint>v` is `v != 0`: one bit
+    'bint': (1, 1, False),
+}
+_C_FLOAT_MANT = {'float': (24, 24), 'np.float32_t': (24, 24), 'np.npy_float32': (24, 24), 'np.float_t': (53, 53),
+                 'double': (53, 53), 'np.float64_t': (53, 53), 'np.double_t': (53, 53), 'np.npy_float64': (53, 53),
+                 'np.npy_double': (53, 53), 'long double': (53, 113), 'np.longdouble_t': (53, 113)}
+
+
+class _CT:
+    """Capacity of a C arithmetic type: kind 'int' (lo..hi = possible widths in
+    bits, signed) or 'float' (lo..hi = possible mantissa bits)."""
+
+    def __init__(self, text, kind, lo, hi, signed=None):
+        self.text, self.kind, self.lo, self.hi, self.signed = text, kind, lo, hi, signed
+
+    def __repr__(self):
+        return self.text
+
+
+def _ctype_info(text):
+    if text in _NP_INT:
+        w, s = _NP_INT[text]
+        return _CT(text, 'int', w, w, s)
+    if text in _C_INT_WIDTH:
+        lo, hi, s = _C_INT_WIDTH[text]
+        return _CT(text, 'int', lo, hi, s)
+    if text in _C_FLOAT_MANT:
+        lo, hi = _C_FLOAT_MANT[text]
+        return _CT(text, 'float', lo, hi)
+    return None
+
+
+def _conv_step(cur, T):
+    """Converting every value of type `cur` to type `T`: 'exact' (every value
+    is represented unchanged), 'modular' (integer conversion that changes
+    values but maps distinct values to distinct values), 'lossy' (two distinct
+    values of `cur` certainly become equal), None (depends on the platform)."""
+    if cur.kind == 'float':
+        if T.kind == 'int':
+            return 'lossy'                      # fractions are truncated
+        if T.lo >= cur.hi:
+            return 'exact'
+        return 'lossy' if T.hi < cur.lo else None
+    if T.kind == 'float':
+        need_hi = cur.hi - (1 if cur.signed else 0)     # |-2**(w-1)| is a power of two
+        need_lo = cur.lo - (1 if cur.signed else 0)
+        if need_hi <= T.lo:
+            return 'exact'
+        return 'lossy' if need_lo > T.hi else None
+    if cur.signed is None or T.signed is None:
+        return None
+    if (cur.signed == T.signed and T.lo >= cur.hi) or (not cur.signed and T.signed and T.lo > cur.hi):
+        return 'exact'
+    if T.hi < cur.lo:
+        return 'lossy'
+    if T.lo >= cur.hi:
+        return 'modular'
+    return None
+
+
+def _common_type(a, b):
+    """C's usual arithmetic conversions for a binary operator (None: not
+    decided for platform-dependent widths)."""
+    if a.kind == 'float' or b.kind == 'float':
+        fl = [t for t in (a, b) if t.kind == 'float']
+        if len(fl) == 1:
+            return fl[0]
+        if (fl[0].lo, fl[0].hi) == (fl[1].lo, fl[1].hi):
+            return fl[0]
+        if fl[0].hi <= fl[1].lo:
+            return fl[1]
+        if fl[1].hi <= fl[0].lo:
+            return fl[0]
+        return None
+    INT = _ctype_info('int')
+    a, b = (INT if t.hi < 32 else t for t in (a, b))      # integer promotions
+    if a.text == b.text:
+        return a
+    if a.lo != a.hi or b.lo != b.hi or a.signed is None or b.signed is None:
+        return None
+    if a.signed == b.signed:
+        return a if a.lo >= b.lo else b
+    sg, us = (a, b) if a.signed else (b, a)
+    if us.lo >= sg.lo:
+        return us
+    return sg                                           # the wider signed type holds every value of the unsigned one
+
+
+def _conv_chain(fi, fn, e, depth=6):
+    """The C types a value passes through between the innermost operand and
+    the place where `e` is used: typecasts and C-typed scalar temporaries
+    (implicit conversion at the assignment).  -> ([type text, ...] innermost
+    first, innermost operand)."""
+    if isinstance(e, ast.Call) and not e.keywords and call_name(e) == '__cy_cast__' and len(e.args) == 2:
+        c, leaf = _conv_chain(fi, fn, e.args[1], depth)
+        return c + [const_value(e.args[0])], leaf
+    if isinstance(e, ast.Name) and isinstance(e.ctx, ast.Load) and depth > 0:
+        t = fn.cy_locals.get(e.id)
+        if t is not None and not t.is_buffer:
+            v = Expander(fi, pure=CMATH).temp_value(e)
+            if v is not None:
+                c, leaf = _conv_chain(fi, fn, v, depth - 1)
+                return c + [t.text], leaf
+    return [], e
+
+
+def _elem_alternatives(k, buf):
+    """Specialisations of the element type of a typed buffer: [(fused name or
+    None, type text)]."""
+    out = []
+    for e in (k.buffers.get(buf, (None, ''))[1] or '').split('|'):
+        if not e:
+            continue
+        if e in k.fused:
+            out += [(e, a.text) for a in k.fused[e]]
+        else:
+            out.append((None, e))
+    return out
+
+
+def _through(elem, chain, fused_name):
+    """An element of type `elem` converted through `chain`: ('exact', ()) /
+    ('modular', (types...)) / False (two distinct elements certainly become
+    equal; [1] of the result names the step) / None (not decided)."""
+    cur = _ctype_info(elem)
+    if cur is None:
+        return None, None
+    mods = []
+    for tx in chain:
+        T = _ctype_info(elem) if (fused_name is not None and tx == fused_name) else _ctype_info(tx)
+        if T is None:
+            return None, tx
+        r = _conv_step(cur, T)
+        if r == 'exact':
+            continue
+        if r == 'modular':
+            mods.append(T.text)
+            cur = T
+            continue
+        if r == 'lossy' and not mods:
+            return False, tx
+        return None, tx
+    return ('modular', tuple(mods)) if mods else ('exact', ()), None
+
+
+def _static_type(elem, chain, fused_name):
+    if not chain:
+        return _ctype_info(elem)
+    tx = chain[-1]
+    return _ctype_info(elem) if (fused_name is not None and tx == fused_name) else _ctype_info(tx)
+
+
+def exact_compare_verdict(k, fi, fn, lhs, rhs):
+    """lhs / rhs: the two operands of the comparison as written (casts and
+    temporaries included), whose innermost operands are elements of typed
+    buffers.  -> (verdict, detail) with verdict 'match' (the comparison is the
+    comparison of the elements for every specialisation), 'near' (for some
+    specialisation two different elements compare equal), 'far'."""
+    cl, leafl = _conv_chain(fi, fn, lhs)
+    cr, leafr = _conv_chain(fi, fn, rhs)
+    bufs = []
+    for leaf in (leafl, leafr):
+        if not (isinstance(leaf, ast.Subscript) and isinstance(leaf.value, ast.Name) and leaf.value.id in k.buffers):
+            return 'far', 'operand `%s` is not an element of a typed buffer' % u(leaf)
+        bufs.append(leaf.value.id)
+    al, ar = _elem_alternatives(k, bufs[0]), _elem_alternatives(k, bufs[1])
+    if not al or not ar:
+        return 'far', 'element type of the buffers not known'
+    if [f for f, _ in al] == [f for f, _ in ar] and al[0][0] is not None and len({f for f, _ in al}) == 1:
+        pairs = list(zip(al, ar))                 # one fused type: specialised together
+    else:
+        pairs = [(p, q) for p in al for q in ar]
+    lossy, undecided = [], []
+    for (fl, el), (fr, er) in pairs:
+        tl, tr = _static_type(el, cl, fl), _static_type(er, cr, fr)
+        if tl is None or tr is None:
+            undecided.append('%s: a type in the conversion is not in the table' % el)
+            continue
+        common = _common_type(tl, tr)
+        if common is None:
+            undecided.append('%s: common type of `%s` and `%s` depends on the platform' % (el, tl, tr))
+            continue
+        rl, wl = _through(el, cl + [common.text], fl)
+        rr, wr = _through(er, cr + [common.text], fr)
+        if rl is False or rr is False:
+            lossy.append((el if rl is False else er, wl if rl is False else wr))
+        elif rl is None or rr is None:
+            undecided.append('%s: conversion to `%s` not decided' % (el, wl if rl is None else wr))
+        elif rl != rr:
+            undecided.append('%s / %s: the two operands are converted differently (%s vs %s)' % (el, er, rl[1] or 'unchanged', rr[1] or 'unchanged'))
+    if lossy:
+        kinds = sorted({e for e, _ in lossy})
+        return 'near', 'elements of type %s are compared after conversion to `%s`, which does not represent every value of ' \
+                       'that type: two different elements can compare equal' % (', '.join(kinds), lossy[0][1])
+    if undecided:
+        return 'far', undecided[0]
+    return 'match', 'compared in %s' % ('the element type' if not (cl or cr) else 'a type that represents every element value')
+
+
+def raw_compare_scan(ck, mod, kernels, fused):
+    """A kernel whose normal form equals the reference's is analysed in the
+    reference spelling (sa/core.py splices the reference function in).  The
+    normal form forward-substitutes scalar temporaries WITHOUT regard to their
+    declared C type, so `cdef double a = X[i, j]` ... `a != b` is spliced to
+    `X[i, j] != y[j]` although the assignment converts the element.  For such
+    kernels the comparisons between buffer elements are therefore judged once
+    more on the function as written (parsed again, not normalised): only a
+    comparison that is provably inexact is reported; anything else was already
+    decided on the spliced form."""
+    spliced = [kn for kn in kernels if kn in set(getattr(ck.repo, 'equivalent', {}).get(LD, ()))]
+    if not spliced:
+        return
+    rule = 'C13.D5.formula.exact-compare'
+    try:
+        import os
+        from .. import core, pyxfront
+        raw = core.Module(LD, mod.src, core._canon_tree(pyxfront.parse_pyx(os.path.join(ck.repo.root, LD), LD)), 'pyx')
+    except Exception as e:
+        ck.missing(rule, 'kernels %s were recognised as re-spellings of the reference, but the source as written could not be '
+                         'parsed again to judge the conversions of its C-typed temporaries (%r)' % (', '.join(spliced), e))
+        return
+    for kern in spliced:
+        if kern not in raw.functions:
+            continue
+        fn = raw.functions[kern]
+        fi = finfo(raw, fn)
+        k = Kernel(raw, fn, fused)
+        seen = set()
+        for n in ast.walk(fn):
+            if not (isinstance(n, ast.Compare) and len(n.ops) == 1 and isinstance(n.ops[0], (ast.Eq, ast.NotEq))) or id(n) in seen:
+                continue
+            seen.add(id(n))
+            lhs, rhs = n.left, n.comparators[0]
+            try:
+                leaves = [_conv_chain(fi, fn, e)[1] for e in (lhs, rhs)]
+            except Exception:
+                continue
+            if not all(isinstance(l, ast.Subscript) and isinstance(l.value, ast.Name) and l.value.id in k.buffers for l in leaves):
+                continue
+            xv, xd = exact_compare_verdict(k, fi, fn, lhs, rhs)
+            if xv == 'near':
+                ck.bad(rule, raw, n, kern, 'the elements are compared in a type that represents every value of every supported element type',
+                       '%s compares `%s` with `%s` (= `%s` vs `%s` through C-typed temporaries / casts): %s'
+                       % (kern, u(lhs), u(rhs), u(leaves[0]), u(leaves[1]), xd))
+
+
+def _written_term(s, out):
+    """The accumulated term of `out[I] += T` / `out[I] = out[I] + T` as written
+    (not expanded); None when the store has another shape."""
+    if isinstance(s, ast.AugAssign):
+        return s.value if isinstance(s.op, ast.Add) else None
+    if isinstance(s, ast.Assign) and len(s.targets) == 1 and isinstance(s.value, ast.BinOp) and isinstance(s.value.op, ast.Add):
+        tg = u(s.targets[0])
+        for a, b in ((s.value.left, s.value.right), (s.value.right, s.value.left)):
+            if u(a) == tg and out not in names_loaded(b):
+                return b
+    return None
 
 
 def _after(fi, a, La, s, Ls):
@@ -1305,14 +1596,47 @@ def d5_formulas(ck, mod, fused, kernel_of):
             conds0, cok = _conds_between(mod, s, outer)
             ex = E()
             conds = []
+            compared = None           # hamming: (lhs, rhs) of the deciding comparison AS WRITTEN (casts, temporaries)
             for c in conds0:
-                conds.append(Cmp(ex.expand(c.lhs), c.op, ex.expand(c.rhs)) if isinstance(c, Cmp) else c)
+                if isinstance(c, Cmp) and metric == 'hamming':
+                    # shape: the elements that are compared, seen through every conversion; whether those
+                    # conversions keep the comparison exact is a separate obligation (.exact-compare)
+                    ll, lr = _conv_chain(fi, fn, c.lhs)[1], _conv_chain(fi, fn, c.rhs)[1]
+                    conds.append(Cmp(ex.expand(ll), c.op, ex.expand(lr)))
+                    compared = (c.lhs, c.rhs) if len(conds0) == 1 else None
+                else:
+                    conds.append(Cmp(ex.expand(c.lhs), c.op, ex.expand(c.rhs)) if isinstance(c, Cmp) else c)
             scope = {X, y, iv, jv}
-            verdict, detail = _term_verdict(metric, _strip_wide(term), conds, cok, X, y, iv, jv, scope)
+            shape_term = _strip_wide(term)
+            if metric == 'hamming' and not conds0:
+                wr = _written_term(s, out)
+                cmpn = _conv_chain(fi, fn, wr)[1] if wr is not None else None      # conversions of the 0/1 RESULT are exact
+                if isinstance(cmpn, ast.Compare) and len(cmpn.ops) == 1:
+                    compared = (cmpn.left, cmpn.comparators[0])
+                    shape_term = ast.copy_location(ast.Compare(
+                        left=ex.expand(_conv_chain(fi, fn, compared[0])[1]), ops=list(cmpn.ops),
+                        comparators=[ex.expand(_conv_chain(fi, fn, compared[1])[1])]), cmpn)
+            verdict, detail = _term_verdict(metric, shape_term, conds, cok, X, y, iv, jv, scope)
             ck.decide(verdict, rule, mod, s, kern, u(s), want_txt[metric] + ' [' + detail + ']',
                       '%s accumulates `%s`%s; expected %s' % (
                           kern, u(term), (' under `%s`' % ' and '.join(repr(c) if isinstance(c, Cmp) else u(c[1]) for c in conds)) if conds else '',
                           want_txt[metric]))
+            # hamming: "differ" is decided on the elements themselves.  The comparison is carried out in the
+            # common C type of its operands AFTER the conversions written in the source; a conversion that does
+            # not represent every value of some specialisation of the fused element type (int64/uint64 through
+            # double: 53 mantissa bits; a narrower integer; float) makes two different elements compare equal
+            if metric == 'hamming' and verdict == 'match':
+                xrule = rule + '.exact-compare'
+                if compared is None:
+                    ck.missing(xrule, '%s: the comparison that decides `differ` was not located as written' % kern)
+                else:
+                    xv, xd = exact_compare_verdict(k, fi, fn, compared[0], compared[1])
+                    ck.decide(xv, xrule, mod, s, kern,
+                              'hamming: the elements are compared in a type that represents every value of every supported element type',
+                              '`%s` vs `%s`: %s' % (u(compared[0]), u(compared[1]), xd),
+                              '%s decides whether two coordinates differ by comparing `%s` with `%s`: %s. The count (and the '
+                              'fraction) is then too small for such data; compare the elements in their own type '
+                              '(`X[i, j] != y[j]`)' % (kern, u(compared[0]), u(compared[1]), xd))
             # where the arithmetic of the term is carried out: the accumulator is float64, but a
             # difference / square of two cells of the (fused) element type is computed IN that type and
             # only its result is widened: int32/int64 wrap around, float32 rounds / overflows to inf
@@ -1869,5 +2193,6 @@ def check(ck):
     ck.floor('C13.D3.zero-first', nz, 3, 'kernels with an accumulation into the output buffer')
     d4_wrappers(ck, mod, kernel_of, preps)
     d5_formulas(ck, mod, fused, kernel_of)
+    raw_compare_scan(ck, mod, kernels, fused)
     d6_registry(ck)
     return EXPLANATION
